@@ -83,11 +83,11 @@ func checkCompositeLiteral(
 		return nil
 	}
 
-	if ptr, ok := t.(*types.Pointer); ok {
+	if ptr, ok := types.Unalias(t).(*types.Pointer); ok {
 		t = ptr.Elem()
 	}
 
-	named, ok := t.(*types.Named)
+	named, ok := types.Unalias(t).(*types.Named)
 	if !ok {
 		return nil
 	}
@@ -143,11 +143,11 @@ func checkNewCall(
 		return nil
 	}
 
-	if ptr, ok := t.(*types.Pointer); ok {
+	if ptr, ok := types.Unalias(t).(*types.Pointer); ok {
 		t = ptr.Elem()
 	}
 
-	named, ok := t.(*types.Named)
+	named, ok := types.Unalias(t).(*types.Named)
 	if !ok {
 		return nil
 	}
@@ -215,11 +215,11 @@ func checkVarDeclaration(
 			}
 
 			// Skip pointer types - var p *Struct just creates a nil pointer, not an instance
-			if _, ok := t.(*types.Pointer); ok {
+			if _, ok := types.Unalias(t).(*types.Pointer); ok {
 				continue
 			}
 
-			named, ok := t.(*types.Named)
+			named, ok := types.Unalias(t).(*types.Named)
 			if !ok {
 				continue
 			}
